@@ -17,8 +17,40 @@ def s3_methods(db, roles):
     return out
 
 
+def ownership_answers(db):
+    """(labels meaning "the caller owns the upload", labels meaning "denied") as the ownership check answers them: `true` / `false`, or the
+    variants of a private two-valued enum - read off the check's own body: what it returns under `stored owner == caller` is the grant"""
+    v = db.body("s3s_fs::fs::FileSystem::verify_upload_id")
+    inner = db.innermost_user_body(v) if v else None
+    if inner is None:
+        raise AnchorMissing("verify_upload_id not found")
+    pos, neg = set(), set()
+    for w in flow.return_writes(inner):
+        if w["kind"] != "Ok":
+            continue
+        op = w["rv"]["ops"][0]
+        c = flow.const_of(inner, op)
+        lab = None
+        if c is not None and c.get("ty") == "bool":
+            lab = "true" if c.get("v") != "0" else "false"
+        else:
+            rv = flow.resolve_agg(inner, op)
+            if rv is not None and rv.get("variant"):
+                lab = rv["variant"]
+        if lab is None:
+            # a computed boolean (`Ok(stored == caller)`): true is the grant
+            return {"true"}, {"false"}
+        f = guards.dominating_facts(inner, w["bi"])
+        eq = any(x[0] == "call" and ((x[1].endswith("PartialEq::eq") and x[2] is True) or (x[1].endswith("PartialEq::ne") and x[2] is False)) for x in f)
+        (pos if eq else neg).add(lab)
+    if not pos:
+        return {"true"}, {"false"}
+    return pos, neg - pos
+
+
 def rule_r1(chk, db, roles, methods):
     n = 0
+    POS, NEG = ownership_answers(db)
     for name, b in sorted(methods.items()):
         # takes an upload id?
         uses_upload = any(("UploadPartInput", "upload_id") == x or x[1] == "upload_id" and x[0].endswith("Input") for x in
@@ -43,8 +75,8 @@ def rule_r1(chk, db, roles, methods):
             continue
         vbi, vt = vs[0]
         o = flow.outcomes_of_call(b, vbi)
-        owner = o.get("true")
-        other = o.get("false")
+        owner = o.get(*POS)
+        other = o.get(*NEG) if NEG else set()
         bad = [(bi, e) for bi, e in effs if not flow.must_pass(b, [bi], owner)]
         chk.verdict(bool(owner) and not bad, "R1", name, b.loc(bad[0][0]) if bad else b.loc(vbi),
                     "%s performs %s without the upload's ownership having been verified (verify_upload_id true edge)" % (name, [e for _, e in bad][:3]))
@@ -82,7 +114,8 @@ def rule_r1(chk, db, roles, methods):
         for w in flow.return_writes(inner):
             if w["kind"] == "Ok":
                 c = flow.const_of(inner, w["rv"]["ops"][0])
-                if c is not None and c.get("v") == "0":
+                rva = flow.resolve_agg(inner, w["rv"]["ops"][0])
+                if (c is not None and c.get("v") == "0") or (rva is not None and rva.get("variant") in NEG):
                     f = guards.dominating_facts(inner, w["bi"])
                     if any(x[0] == "call" and x[1].endswith("::exists") and x[2] is False for x in f):
                         okm = True
